@@ -13,10 +13,18 @@ import (
 	"google.golang.org/grpc"
 )
 
+// number of child processes of every rig of this work package
+const cwShards = 6
+
 // TestC07: for every base trace a cancellation after EVERY prefix of its action sequence.
 func TestC07(t *testing.T) {
+	shard, of, child := cwSharded(t, "TestC07", cwShards)
+	if !child {
+		return
+	}
 	em := NewEmitter()
 	defer em.Close()
+	want := func(i int) bool { return i%of == shard && want(i) }
 	idx := 0
 	for ti, bt := range c07BaseTraces() {
 		n := len(bt.Steps(0))
@@ -57,8 +65,13 @@ func c07RaceScenario(kind string) cwScenario {
 // TestC11: abandoned streams (handler returns early / caller cancels or stops reading / peer over-sends), other
 // RPCs in flight, a probe RPC afterwards.
 func TestC11(t *testing.T) {
+	shard, of, child := cwSharded(t, "TestC11", cwShards)
+	if !child {
+		return
+	}
 	em := NewEmitter()
 	defer em.Close()
+	want := func(i int) bool { return i%of == shard && want(i) }
 	for idx, sc := range c11Scenarios(thorough()) {
 		if want(idx) {
 			runCwScenario(t, idx, "c11", sc, em)
@@ -68,8 +81,13 @@ func TestC11(t *testing.T) {
 
 // TestC06: the wire histories of every scenario family of this work package, judged by the protocol monitor.
 func TestC06(t *testing.T) {
+	shard, of, child := cwSharded(t, "TestC06", cwShards)
+	if !child {
+		return
+	}
 	em := NewEmitter()
 	defer em.Close()
+	want := func(i int) bool { return i%of == shard && want(i) }
 	idx := 0
 	run := func(kind string, sc cwScenario) {
 		if want(idx) {
